@@ -552,6 +552,9 @@ def mov(info, a, b):
 
 def xchg(info, a, b):
     e = []
+    if a == b:
+        # xchg r, r changes nothing (two assignments to one register otherwise)
+        return e
     if isinstance(a, ExprSlice) and isinstance(b, ExprSlice) \
             and a.arg == b.arg and a != b:
         # two sub-registers of one register (xchg al, ah): ExprAff rewrites an
@@ -2207,8 +2210,10 @@ def fxch(info, a):
         src = ExprOp('mem_%.2d_to_double'%a.get_size(), a)
     else:
         src = a
-    e.append(ExprAff(float_st0, src))
-    e.append(ExprAff(src, float_st0))
+    if src != float_st0:
+        # fxch st(0) changes no register (two assignments to st(0) otherwise)
+        e.append(ExprAff(float_st0, src))
+        e.append(ExprAff(src, float_st0))
     e += set_float_cs_eip(info)
     return e
 
